@@ -77,6 +77,18 @@ theorem no_panic_seq (seq : Bytes) (ctx : Nat) (h : seq.length < I32LIM) :
   ⟨current_np seq, containerNext_np seq h, findCtx_np seq ctx h, seqCtx_np seq ctx h,
    scanCtx_np seq ctx h, rawValue_np seq h, elements_item_np seq h, tlvElements_item_np seq h⟩
 
+/-- the public accessors added to the model after the audit: `TLVElement::tlv()` (= `tag()` then `value()`),
+`total_len()` (the public wrapper of `container_len`), and the control flow of `Display` / `Debug`
+(`TLVElement::fmt`, **recursive**): a result or `fmt::Error`, never a panic — in particular its
+`unreachable!()` is unreachable — and the recursion is at most `len + 1` deep (`fmtOf` runs on that fuel;
+`.panic .fuel` would be a deeper recursion).  Stack consumption per level is outside the model. -/
+theorem no_panic_extra (bs : Bytes) (h : bs.length < I32LIM) :
+    NP (tlvOf bs) ∧ NP (totalLen bs) ∧ NP (fmtOf (bs.length + 1) bs) :=
+  ⟨tlvOf_np bs h, totalLen_np bs h, fmtOf_np _ bs (Nat.lt_succ_self _) h⟩
+
+example : fmtOf 6 [0x15, 0x24, 0x01, 0x05, 0x18] = .ok () ∧ fmtOf 2 [0x18] = .err .mismatch ∧
+    fmtOf 4 [0x15, 0x24, 0x01] = .err .mismatch := by decide
+
 /-- **The bound is needed in the model**: at `level = i32::MAX` one more container start overflows the
 `i32` counter (debug / overflow-checks build: `attempt to add with overflow`), for every tag form and
 container kind; one below it, and at every smaller positive level, the step does not panic.  Reaching that
@@ -212,10 +224,15 @@ example : containerOf [0x15, 0x24, 0x01, 0x05, 0x18] = .ok [0x24, 0x01, 0x05, 0x
 
 /-! ## 5. every written value tree decodes back to an equal tree -/
 
-/-- **Round trip.**  For every tree of TLV elements `v` that the writer API can be called with
-(`v.wf`: tag and integer values in the range of their Rust type, string lengths within their
-length-field width, UTF-8 strings valid), of any nesting depth `≤ d` and an encoding shorter than
-`usize::MAX`, the bytes the writer produces (`encode v` = `TLVWrite::tlv` / `start_*` /
+/-- **Round trip.**  Domain: `v.wf` = `v.typed` (what the Rust types of `TLVTag` / `TLVValue` enforce by
+themselves: tag and integer values in the range of their type, `Utf*l(&str)` valid UTF-8) **and**
+`v.lenFits` (every string length fits the length field of the element type it is written with — the
+one thing the types do not enforce; `wf_iff_typed_and_accepted`).  A tree that violates `lenFits` is
+*refused* by the fallible writer since the fix `C16-writer-length-truncation` (`writer_total`), so the
+domain is exactly "the writer returned `Ok`" (`decode_written`); the infallible iterator writer
+`TLV::bytes_iter` still truncates (`truncating_writer_corrupts`, open finding).
+For every such tree of any nesting depth `≤ d` and an encoding shorter than
+2^31 − 1 bytes, the bytes the writer produces (`encode v` = `TLVWrite::tlv` / `start_*` /
 `end_container`), followed by arbitrary bytes, decode back — with the reader's public accessors
 `tag()`, `value()`, `container()?.iter()` — to exactly `v`. -/
 theorem decode_encode (v : Value) (d : Nat) (rest : Bytes) (hw : v.wf)
@@ -236,6 +253,47 @@ example :
       (.cons (.leaf (.implPrf32 7) (.str .w8 [1, 2, 3])) .nil)))
     v.wf ∧ (encode v).length + 1 < I32LIM ∧ decodeTree 3 (encode v) = .ok v := by
   refine ⟨by simp [Value.wf, Values.wf, Tag.wf, Prim.wf, Width.bytes]; decide, by decide, by decide⟩
+
+/-! ### the domain of the round trip = what the (fixed) writer accepts -/
+
+/-- **What `TLVWrite::tlv` / `start_*` / `end_container` do with ANY tree** (no hypothesis): if every
+string length fits the length field of its element type the bytes are `encode v`; otherwise the writer
+answers `InvalidData` and — for a leaf — has written nothing.  (Before the fix it wrote `encode v` in both
+cases, i.e. a length field truncated by `as u8/u16/u32`.) -/
+theorem writer_total (v : Value) :
+    (v.lenFits = true → write v = .ok (encode v)) ∧ (v.lenFits = false → write v = .err .invalidData) := by
+  rw [write_eq]; constructor <;> intro h <;> simp [h]
+
+/-- the well-formedness hypothesis of `decode_encode`, taken apart: what the Rust types enforce, and
+"the writer returns `Ok`" -/
+theorem wf_iff_typed_and_accepted (v : Value) : v.wf ↔ v.typed ∧ write v = .ok (encode v) := by
+  rw [Value.wf_iff, write_ok_iff]; simp
+
+/-- **Round trip over "the writer returned `Ok`".**  Every tree the Rust types can express (`v.typed`) that
+the fallible writer accepts — whatever it is — decodes back to itself from the bytes the writer produced,
+followed by anything. -/
+theorem decode_written (v : Value) (b : Bytes) (d : Nat) (rest : Bytes) (ht : v.typed) (hwr : write v = .ok b)
+    (hl : b.length + 1 < I32LIM) (hd : v.depth ≤ d) : decodeTree d (b ++ rest) = .ok v := by
+  obtain ⟨hf, rfl⟩ := (write_ok_iff v b).mp hwr
+  exact decodeTree_encode v d rest ((Value.wf_iff v).mpr ⟨ht, hf⟩) hl hd
+
+example : ∃ v b, v.typed ∧ write v = .ok b ∧ b.length + 1 < I32LIM ∧ v.depth ≤ 2 :=
+  ⟨.cont .anon .array (.cons (.leaf .anon (.str .w1 [7, 8])) .nil), [0x16, 0x10, 0x02, 7, 8, 0x18],
+    ⟨trivial, ⟨trivial, trivial⟩, trivial⟩, by decide, by decide, by decide⟩
+
+/-- **The truncating writer is a defect, not a modelling choice.**  `Str8l` holding a 300-byte slice is a
+value of the Rust type; the fixed `TLVWrite::tlv` refuses it; the truncating cast (`encode`: the writer before
+the fix, and `TLV::bytes_iter` today) emits the length byte `300 mod 256 = 44`, and those bytes decode — without
+an error — to a *different* value (the first 44 octets; the other 256 are read as further elements). -/
+theorem truncating_writer_corrupts :
+    let b : Bytes := List.replicate 300 0xab
+    let v : Value := .leaf .anon (.str .w1 b)
+    v.typed ∧ v.lenFits = false ∧ write v = .err .invalidData ∧
+    (encode v).take 2 = [0x10, 0x2c] ∧ strOf (encode v) = .ok (List.replicate 44 0xab) ∧
+    decodeTree 1 (encode v) = .ok (.leaf .anon (.str .w1 (List.replicate 44 0xab))) := by
+  intro b v
+  refine ⟨⟨trivial, trivial⟩, by decide +kernel, by decide +kernel, by decide +kernel, by decide +kernel,
+    by decide +kernel⟩
 
 /-- skipping (`container_next`, the iterator's advance) passes over exactly one written element -/
 theorem skip_encode (v : Value) (rest : Bytes) (hw : v.wf) (hd : v.depth + 1 < I32LIM) :
